@@ -85,6 +85,23 @@ func drawGrammarText(t *rapid.T) ([]byte, string, *gspec.Grammar) {
 			b[i] = byte(gspec.U(t, 256, "byte"))
 		}
 		return b, "bytes", nil
+	case k < 9:
+		// long chains of rules, each mentioning the next one several times in one sequence (an
+		// operator-precedence ladder): nothing in the tool may be exponential in their length
+		n := 20 + gspec.U(t, 45, "ladder")
+		var b strings.Builder
+		for i := 0; i < n; i++ {
+			switch gspec.U(t, 3, "ladderkind") {
+			case 0:
+				fmt.Fprintf(&b, "L%d = L%d ( _ \"+\" _ L%d )*\n", i, i+1, i+1)
+			case 1:
+				fmt.Fprintf(&b, "L%d = L%d L%d?\n", i, i+1, i+1)
+			default:
+				fmt.Fprintf(&b, "L%d = a:L%d b:( \"x\" L%d )? { return nil, nil }\n", i, i+1, i+1)
+			}
+		}
+		fmt.Fprintf(&b, "L%d = [0-9]+\n_ = \" \"*\n", n)
+		return []byte(b.String()), "tiny", nil
 	case k < 10:
 		// every class name the front-end's table accepts must also be known to the builder
 		// (the two lists are separate files)
@@ -95,6 +112,7 @@ func drawGrammarText(t *rapid.T) ([]byte, string, *gspec.Grammar) {
 		fallthrough
 	case k < 14:
 		return []byte(gspec.Pick(t, []string{"", "\n", "A", "A =", "A = ", "{", "{}", "{}\nA='a'", "A = 'a'", "A = B", "A = A", "A = 'a' A = 'b'", "A = %{x}", "A = 'a' //{x} 'b'", "=", "A 'x' = .", "A = [", "A = \"", "A = 'ab'", "A = []", "A = [^]", "A = ''", "A = [\\p{L]]", "A = [\\p{Greek]x]", "A = \"\\400\"", "A = 'a' {", "A = %{", "A = 'a' //{",
+			"A = %{x} //{x} B\nB = 'b'", "A = ( %{x} //{x} B ) 'a'\nB = 'b' / A", "A = %{x} //{x, y} %{y}",
 			"A = 'a' {\n}", "A = 'a' {}", "A = &{\n} 'a'", "A = #{\n} 'a'", "{\n}\nA = 'a' {\n}", "A = 'a' {\n\n}", "A = 'a' { }"}, "tiny")), "tiny", nil
 	}
 	prof := gspec.Pick(t, toolProfiles, "profile")
@@ -329,6 +347,87 @@ func lastLinesT(s string, n int) string {
 	return strings.Join(l, "\n")
 }
 
+// inlineBlowup is the matcher of the recorded finding KF-C13-OPTBLOWUP: -optimize-grammar
+// inlines every rule that refers to no other rule into all its references, again and again
+// until nothing changes, whatever the size: a chain of rules that each mention the next one
+// twice (L0 = L1 L1; L1 = L2 L2; ...; L40 = 'a') is expanded to 2^40 nodes - the tool runs
+// out of memory. The predicate computes the size of the fully inlined grammar (rules that
+// reach no cycle are inlined) and reports more than 300000 nodes. Such a case is never run
+// in-process (this test binary has no memory limit).
+func inlineBlowup(text []byte, f genFlags) bool {
+	if !f.OptimizeGrammar {
+		return false
+	}
+	g, err := parseToSpec(text)
+	if err != nil || g == nil {
+		return false
+	}
+	const limit = 300000.0
+	state := map[string]int{}
+	inl := map[string]bool{}
+	size := map[string]float64{}
+	var visit func(name string) (bool, float64)
+	visit = func(name string) (bool, float64) {
+		r := g.Rule(name)
+		if r == nil {
+			return false, 1
+		}
+		switch state[name] {
+		case 1:
+			return false, 1 // on a cycle: never inlined
+		case 2:
+			return inl[name], size[name]
+		}
+		state[name] = 1
+		ok, n := true, 0.0
+		gspec.Walk(r.Expr, func(e *gspec.Expr) {
+			n++
+			if e.K == gspec.KRef {
+				i, sz := visit(e.Name)
+				if i {
+					n += sz
+				} else {
+					ok = false
+				}
+			}
+		})
+		if n > 1e18 {
+			n = 1e18
+		}
+		state[name], inl[name], size[name] = 2, ok, n
+		return ok, n
+	}
+	for _, r := range g.Rules {
+		if _, n := visit(r.Name); n > limit {
+			return true
+		}
+	}
+	return false
+}
+
+// blowupThroughCommand runs a KF-C13-OPTBLOWUP case through the command under a memory limit
+// and reports whether the tool still fails to finish (true = the finding reproduces).
+func blowupThroughCommand(dir string, c *c13Case) bool {
+	bin := os.Getenv("VTOOL_PIGEON")
+	if bin == "" {
+		return true
+	}
+	in := filepath.Join(dir, "blowup.peg")
+	os.WriteFile(in, c.Text, 0o644)
+	ctx, cancel := context.WithTimeout(context.Background(), 40*time.Second)
+	defer cancel()
+	sh := "ulimit -v 3000000; exec " + bin + " " + strings.Join(c.Flags.args(), " ") + " -o /dev/null " + in
+	cmd := exec.CommandContext(ctx, "bash", "-c", sh)
+	err := cmd.Run()
+	if ctx.Err() != nil {
+		return true
+	}
+	if ee, ok := err.(*exec.ExitError); ok && ee.ExitCode() >= 0 && ee.ExitCode() != 2 {
+		return false // a diagnostic and a clean exit
+	}
+	return err != nil
+}
+
 // polluted is set after a case ran into the time limit: its goroutine keeps running main().
 var polluted bool
 
@@ -349,6 +448,12 @@ func TestC13(t *testing.T) {
 			continue
 		}
 		sum.Replayed = append(sum.Replayed, f)
+		if inlineBlowup(rf.Case.Text, rf.Case.Flags) {
+			if blowupThroughCommand(dir, &rf.Case) {
+				sum.ReplayFails = append(sum.ReplayFails, f)
+			}
+			continue
+		}
 		k, _, _, _, to, _, _ := checkC13(dir, &rf.Case)
 		if k != "" || to {
 			sum.ReplayFails = append(sum.ReplayFails, f)
@@ -366,6 +471,18 @@ func TestC13(t *testing.T) {
 	n := 0
 	rapid.Check(t, func(rt *rapid.T) {
 		c := drawC13(rt)
+		if inlineBlowup(c.Text, c.Flags) {
+			if kfOpen("KF-C13-OPTBLOWUP") {
+				sum.Excluded["KF-C13-OPTBLOWUP"]++
+				return
+			}
+			// (finding closed: the tool must cope - but through the command, under a memory limit)
+			if blowupThroughCommand(dir, c) {
+				sum.fail("hang", "the command ran out of time or memory on a grammar whose inlined form is huge", c)
+				rt.Fatalf("hang")
+			}
+			return
+		}
 		kind, diff, tags, nontrivial, timedOut, res, out := checkC13(dir, c)
 		if polluted {
 			return
@@ -428,6 +545,9 @@ func FuzzToolTotal(f *testing.F) {
 		}
 		if maxParenDepth(text) > 10 {
 			c.Flags.Cache = true // the documented remedy for deep nesting; with it the tool must be fast
+		}
+		if inlineBlowup(text, c.Flags) {
+			t.Skip() // KF-C13-OPTBLOWUP: never in a process without a memory limit
 		}
 		kind, diff, _, _, timedOut, _, _ := checkC13(dir, c)
 		if timedOut {
